@@ -473,6 +473,8 @@ fn canon_obj(o: &FileDicomObject<InMemDicomObject>) -> String {
 /// `file`: complete bytes; `k`: size of the first chunk delivered by the byte source.
 /// `expect`: Some(canonical object) when the file was produced by write_all (with or without its preamble removed)
 fn preamble_case(dir: &std::path::Path, idx: usize, bucket: &str, file: Vec<u8>, k: usize, opt: u64, expect: Option<String>) -> Case {
+    // whether the file was produced WITH its 128-byte preamble (whatever the preamble contains)
+    let with_preamble = !bucket.contains("without") && !bucket.contains("dicm-at-128");
     let iu = c_str(dicom_object::IMPLEMENTATION_CLASS_UID);
     let inm = c_str(dicom_object::IMPLEMENTATION_VERSION_NAME);
     let (ropt, copt) = popt(opt);
@@ -481,7 +483,6 @@ fn preamble_case(dir: &std::path::Path, idx: usize, bucket: &str, file: Vec<u8>,
     let (cp, op) = open_class(catch(|| OpenFileOptions::new().read_preamble(ropt).open_file(&path)));
     let _ = std::fs::remove_file(&path);
     let (cr, or) = open_class(catch(|| OpenFileOptions::new().read_preamble(ropt).from_reader(Chunked { data: &file, pos: 0, first: k.max(1) })));
-    let has_pre = file.len() >= 132 && &file[128..132] == b"DICM" && &file[0..4] != b"DICM";
     let oracle = match (&expect, opt) {
         (Some(want), 0) => {
             let gp = op.as_ref().map(canon_obj);
@@ -490,7 +491,7 @@ fn preamble_case(dir: &std::path::Path, idx: usize, bucket: &str, file: Vec<u8>,
             else {
                 // classify the failing input precisely
                 let dicm128 = file.len() >= 132 && &file[128..132] == b"DICM";
-                let class = if !has_pre && &file[0..4.min(file.len())] == b"DICM" && dicm128 { "NoPreambleDicmAt128" }
+                let class = if !with_preamble && &file[0..4.min(file.len())] == b"DICM" && dicm128 { "NoPreambleDicmAt128" }
                     else if gp.as_deref() == Some(want) && k.min(8192) < file.len().min(132) { "ShortFirstRead" }
                     else { "PreambleReadBack" };
                 Oracle::Fails { class: class.into(), detail: format!("by_path={} by_reader={} first_chunk={} want={} got_path={:?}", cp.chars().take(30).collect::<String>(), cr.chars().take(30).collect::<String>(), k, want, gp) }
@@ -619,6 +620,15 @@ pub fn cases(ctx: &Ctx) -> Vec<Case> {
         let (f, want) = simple_file(&mut r, None);
         out.push(preamble_case(&dir, out.len(), "pre-corpus-with", f.clone(), 8192, 0, Some(want.clone())));
         out.push(preamble_case(&dir, out.len(), "pre-corpus-without", f[128..].to_vec(), 8192, 0, Some(want.clone())));
+        // application-defined preamble content, also carrying the magic code at offsets 0, 1, 64, 124:
+        // the file must open like the one with the all-zero preamble
+        for at in [0usize, 1, 64, 124] {
+            let mut g = f.clone();
+            g[at..at + 4].copy_from_slice(b"DICM");
+            out.push(preamble_case(&dir, out.len(), "pre-corpus-preamble-with-dicm", g, 8192, 0, Some(want.clone())));
+        }
+        { let mut g = f.clone(); for (i, b) in g[..128].iter_mut().enumerate() { *b = (i as u8).wrapping_mul(37).wrapping_add(1); }
+          out.push(preamble_case(&dir, out.len(), "pre-corpus-preamble-arbitrary", g, 8192, 0, Some(want.clone()))); }
         // byte source whose first read is short (ShortFirstRead)
         out.push(preamble_case(&dir, out.len(), "pre-corpus-short-first-read", f.clone(), 100, 0, Some(want.clone())));
         out.push(preamble_case(&dir, out.len(), "pre-corpus-first-read-131", f.clone(), 131, 0, Some(want.clone())));
@@ -665,11 +675,11 @@ pub fn cases(ctx: &Ctx) -> Vec<Case> {
                     2 => out.push(preamble_case(&dir, i, "pre-without", f[128..].to_vec(), k, opt, Some(want))),
                     3 => { if r.chance(1, 4) { let (g, w) = dicm128_file(); out.push(preamble_case(&dir, i, "pre-without-dicm128", g, k, opt, Some(w))); }
                            else { out.push(preamble_case(&dir, i, "pre-without", f[128..].to_vec(), k, opt, Some(want))) } }
-                    4 => { // non-zero preamble, possibly starting with DICM
+                    4 => { // preamble of arbitrary content, possibly carrying "DICM" (offsets 0, 1, 64, 124, random)
                         let mut g = f.clone();
-                        for b in g[..128].iter_mut() { *b = r.below(256) as u8; }
-                        if r.chance(1, 3) { g[0..4].copy_from_slice(b"DICM"); }
-                        out.push(preamble_case(&dir, i, "pre-nonzero-preamble", g, k, opt, None));
+                        if r.coin() { for b in g[..128].iter_mut() { *b = r.below(256) as u8; } }
+                        if r.chance(2, 3) { let at = *r.pick(&[0usize, 0, 1, 64, 124, 60, 100]); g[at..at + 4].copy_from_slice(b"DICM"); }
+                        out.push(preamble_case(&dir, i, "pre-arbitrary-preamble", g, k, opt, Some(want)));
                     }
                     5 => { // short / garbage files
                         let n = *r.pick(&[0usize, 1, 3, 4, 5, 127, 128, 131, 132, 133, 140]);
